@@ -49,6 +49,16 @@ def run(ctx: Ctx, env):
         else:
             names.append((("geo",), nm))
     names += [((), "unknownfunction"), (("a", "b"), "length")]
+    n_rows = _name_grid(ctx, env, tm, irt, names, "R1.return-type", "infer_return_type")
+    # infer_type applied to a call must give the very same answers (however it gets them: by delegating or by its own table)
+    _name_grid(ctx, env, tm, it_fn, names, "R2.infer-type-of-call", "infer_type")
+    ctx.floor("function names evaluated", n_rows, 100)
+    _rest(ctx, env, tm, it_fn, tc_fn)
+
+
+def _name_grid(ctx: Ctx, env, tm, entry, names, rule: str, entry_name: str) -> int:
+    repo, schema = env.repo, env.schema
+    irt = entry
     seen = set()
     n_rows = 0
     for ns, nm in names:
@@ -58,7 +68,17 @@ def run(ctx: Ctx, env):
         full = ".".join(ns + (nm,))
         arity = O.ODATA_FUNCTION_ARITY.get(full)
         nargs = arity[0] if arity else 2
-        interp = Interp(repo, schema, env.kindflow.kinds, opaque_funcs=(TYPING + ".infer_type",))
+        interp = Interp(repo, schema, env.kindflow.kinds)
+        it_fn_ = tm.functions["infer_type"]
+
+        # the call's arguments are opaque: asking for their type is answered by a stub that records the question; any other
+        # use of infer_type (on the call node itself, when infer_type is the entry) is evaluated for real
+        def arg_stub(it, a, kw, it_fn_=it_fn_):
+            if a and isinstance(a[0], NodeV) and a[0].path.startswith("args["):
+                return Sym("call", RefV(TYPING + ".infer_type"), (a[0],), ())
+            return it.call_function(tm, it_fn_, list(a), dict(kw), None)
+
+        interp.func_overrides = {TYPING + ".infer_type": arg_stub}
 
         def setup(it, ns=ns, nm=nm, nargs=nargs):
             func = NewNode("Identifier", {"name": Const(nm), "namespace": Const(tuple(ns))}, "grid")
@@ -77,17 +97,17 @@ def run(ctx: Ctx, env):
         for x in paths:
             if x.outcome != "return":
                 q = interp.exc_class(x.value)
-                ctx.fail("R1.return-type", f"{key}|raise", f"infer_return_type({full}(...)) raises {q} "
+                ctx.fail(rule, f"{key}|raise", f"{entry_name}({full}(...)) raises {q} "
                          f"(with {nargs} arguments - the function's minimum arity)", x.where, f"{full}({', '.join('x' * 1 for _ in range(nargs))})")
                 continue
             v = x.value
             if isinstance(v, Const) and v.v is None:
-                ctx.ok("R1.return-type", f"{key}|unknown", "unknown", nontrivial=False)
+                ctx.ok(rule, f"{key}|unknown", "unknown", nontrivial=False)
                 continue
             if isinstance(v, RefV) and v.qual.startswith(AST):
                 got = v.qual[len(AST):]
-                ctx.check(want is not None and want != "ARG" and got == want, "R1.return-type", f"{key}|{got}",
-                          f"infer_return_type says {full} returns {got}; OData says {want or 'nothing known (not a built-in: must be unknown)'}",
+                ctx.check(want is not None and want != "ARG" and got == want, rule, f"{key}|{got}",
+                          f"{entry_name} says {full} returns {got}; OData says {want or 'nothing known (not a built-in: must be unknown)'}",
                           where, f"{full}(...)")
                 continue
             if isinstance(v, Sym) and v.op == "call" and isinstance(v.args[0], RefV) and v.args[0].qual.endswith("infer_type"):
@@ -97,16 +117,19 @@ def run(ctx: Ctx, env):
                 m = _re.match(r"args\[(\d+)\]$", path)
                 idx = int(m.group(1)) if m else None
                 allowed = O.ODATA_FUNCTION_RETURN_ARGS.get(full, set())
-                ctx.check(want == "ARG" and idx in allowed, "R1.return-type", f"{key}|arg-derived|{idx}",
+                ctx.check(want == "ARG" and idx in allowed, rule, f"{key}|arg-derived|{idx}",
                           f"{full}: type derived from argument {idx if idx is not None else path or arg!r}; in OData the result of {full} has the type of "
                           f"argument(s) {sorted(allowed) if allowed else 'none (' + str(want) + ')'}", where,
                           "length(substring(name, 1)) eq 2" if full == "substring" else f"{full}(...)")
                 continue
-            ctx.fail("R1.return-type", f"{key}|other", f"infer_return_type({full}) returns {v!r}: neither unknown nor an ast class", where)
+            ctx.fail(rule, f"{key}|other", f"{entry_name}({full}) returns {v!r}: neither unknown nor an ast class", where)
         if n_rows % 29 == 0:
             ctx.sample({"function": full, "outcomes": [repr(p.value) for p in paths]})
-    ctx.floor("function names evaluated", n_rows, 100)
+    return n_rows
 
+
+def _rest(ctx: Ctx, env, tm, it_fn, tc_fn):
+    repo, schema = env.repo, env.schema
     # ---- R2 infer_type per node class ---------------------------------------------------------------------------
     kenv = KindEnv(schema)
     cases: List[Tuple[str, Optional[str]]] = []
@@ -118,6 +141,8 @@ def run(ctx: Ctx, env):
         else:
             cases.append((kind, None))
     for kind, discr in cases:
+        if kind == "Call":
+            continue  # decided per function name by the grid above (R2.infer-type-of-call)
         interp = Interp(repo, schema, kenv, opaque_funcs=(TYPING + ".infer_return_type",))
 
         def setup(it, kind=kind, discr=discr):
